@@ -137,11 +137,73 @@ def selfcheck():
 
 
 def plan(tier, seed):
-    return [dict(name=f"hist-{i}", i=i) for i in range(NSHARD)]
+    return [dict(name=f"hist-{i}", i=i) for i in range(NSHARD)] + [dict(name="scenarios", kind="scen")]
+
+
+def _scenario_container(driver):
+    t = C.CTarget(driver)
+    mc = t.mc
+    mc["d"] = 1
+    mc["g/e"] = 2
+    mc.create_group("x")
+    mc["d"].meta["verif.base"] = {"label": "d"}
+    mc["g"].meta["verif.base"] = {"label": "g"}
+    mc["g/e"].meta["verifother.thing"] = {"name": "e"}
+    return t
+
+
+def check_scenarios(driver, rec):
+    """Failed or unusual calls that touch metadata: whatever happens, TOC and attached objects stay in sync (raw audit),
+    live and after reopening."""
+    def audit(t, what, case):
+        for phase in ("live", "reopened"):
+            try:
+                C.audit(t.mc.__wrapped__, f"{what} ({phase}) on {driver}")
+            except Violation as v:
+                rec.fail(v.signature + ":" + case["scenario"], case, v.observed, v.expected)
+                return
+            if phase == "live":
+                t.reopen()
+
+    # 1. copy with a group NODE as destination, called on a local_only node (no absolute path is passed by the caller)
+    case = dict(kind="scenario", driver=driver, scenario="local-only-copy-group-dst")
+    t = _scenario_container(driver)
+    try:
+        r = t.mc["/"].restrict(local_only=True)
+        try:
+            r.copy("g", r["x"])
+        except Exception:  # noqa: BLE001 - refusing is fine, a half-done copy is not
+            pass
+        audit(t, "copy('g', <group node>) on a local_only root", case)
+        rec.case(nt_key=[driver, case["scenario"]], classes=["scenario_local_only_copy"], sample=case)
+    finally:
+        t.destroy()
+    # 2. a metadata interface object kept while its node is deleted / moved away, then used to attach
+    for how in ("del", "move"):
+        case = dict(kind="scenario", driver=driver, scenario=f"kept-meta-object-after-{how}")
+        t = _scenario_container(driver)
+        try:
+            m = t.mc["d"].meta
+            if how == "del":
+                del t.mc["d"]
+            else:
+                t.mc.move("d", "moved")
+            try:
+                m["verifother.thing"] = {"name": "late"}
+            except Exception:  # noqa: BLE001
+                pass
+            audit(t, f"attach through a kept .meta object after {how}", case)
+            rec.case(nt_key=[driver, case["scenario"]], classes=["scenario_kept_meta_object"], sample=case)
+        finally:
+            t.destroy()
 
 
 def run_shard(shard, tier, seed, rec):
     H.install_work_guard()
+    if shard.get("kind") == "scen":
+        for drv in ("h5", "ih5"):
+            check_scenarios(drv, rec)
+        return
     i = shard["i"]
     n = {"quick": 50, "thorough": 1500}[tier]
     drivers = [["h5"], ["ih5"], ["ih5mf"], ["h5"]][i % 4]
@@ -153,6 +215,9 @@ def run_shard(shard, tier, seed, rec):
 def replay(rp, rec):
     H.install_work_guard()
     try:
-        run_case(rp["case"], rec)
+        if rp["case"].get("kind") == "scenario":
+            check_scenarios(rp["case"]["driver"], rec)
+        else:
+            run_case(rp["case"], rec)
     except Violation as v:
         rec.fail(v.signature, rp["case"], v.observed, v.expected)
